@@ -205,10 +205,36 @@ def r13_3(ctx):
                 ctx.violation(construct(f, "conveyor-rule"), f.loc(), f"a component placed at workplace C is moved into workplace B although B declares only A as input workplace")
             if allowed and moved == {False}:
                 ctx.violation(construct(f, "conveyor-rule-blocks"), f.loc(), f"a component placed {placed} cannot enter workplace B (declared inputs: {inputs}) although the conveyor rule allows it")
+    # a component moves only while *none* of its tasks holds a worker (same small model, a second task of the component with a worker)
+    for other_holds in (False, True):
+        T, T2, Cm, W = Obj("T", TASK), Obj("T2", TASK), Obj("Cm", COMPONENT), Obj("W", WORKER)
+        A, B = Obj("A", WORKPLACE), Obj("B", WORKPLACE)
+        st0 = State()
+        st0.heap.update({("T", "state"): E(TS, "READY"), ("T", "target_component"): Cm, ("T", "auto_task"): Const(True), ("T", "name"): Const("t"),
+                         ("T", "allocated_workplace_list"): ListV([B]), ("T", "allocated_worker_list"): ListV([]),
+                         ("T2", "state"): E(TS, "READY"), ("T2", "target_component"): Cm, ("T2", "name"): Const("t2"),
+                         ("T2", "allocated_worker_list"): ListV([W] if other_holds else []),
+                         ("Cm", "targeted_task_list"): ListV([T, T2]), ("Cm", "child_component_list"): ListV([]), ("Cm", "placed_workplace"): A,
+                         ("A", "ID"): Const("A"), ("B", "ID"): Const("B"), ("B", "input_workplace_list"): ListV([])})
+        st0.facts["<Cm>.is_ready()"] = (True, frozenset())
+        st0.facts["<B>.can_put(<Cm>)"] = (True, frozenset())
+        I = mk_interp(ctx, collections={"self.workflow.task_list": [T], "self.organization.team_list": [], "self.organization.workplace_list": [A, B]},
+                      call_hook=hook, distinct_objs=True, havoc_on_call=False, inline=alloc_inline(ctx), max_depth=3)
+        moved = set()
+        for st, ex in I.run_function(f, bind={"__defaults__": True}, st=st0):
+            moved.add(any(isinstance(e, Call) and e.callees and e.callees[0] == f"{WORKPLACE}.set_placed_component" and isinstance(e.recv, Obj) and e.recv.name == "B" for e in flatten(st.trace)))
+        ctx.instance(construct(f, f"move-while-sibling-task-holds-worker={other_holds}"), sample={"moved": sorted(moved)})
+        if other_holds and True in moved:
+            ctx.violation(construct(f, "move-while-staffed"), f.loc(), "a component is moved to another workplace although another task of the same component already holds a worker "
+                          "(allocated earlier in this step at the old workplace): that task then works with facilities of a workplace where its component is not")
+        if not other_holds and moved == {False}:
+            ctx.violation(construct(f, "move-blocked"), f.loc(), "a component none of whose tasks holds a worker cannot be moved to a workplace that accepts it")
     # can_put numeric boundary
     cp = ctx.repo.method(WORKPLACE, "can_put")
+    from fractions import Fraction
+    tiny = Fraction(1, 10 ** 12)     # well inside the default tolerance (1e-10): float noise of sizes like 0.1 + 0.2
     for nested in (False, True):
-        for size, exp in ((0.5, True), (1.0, True), (1.5, False), (3.0, False)):
+        for size, exp in ((0.5, True), (1.0, True), (1.5, False), (3.0, False), (1 + tiny, True), (1 + Fraction(1, 10 ** 6), False)):
             # c1 is a top-level component, c2 a child placed on its own (its parent is elsewhere): both take space here.
             # nested: c2 is c1's own child, listed as a separate entry (set_placed_component lists the parts of a placed assembly
             # one by one): each entry still counts once
